@@ -82,7 +82,24 @@ def rule_units(ctx):
     ok = False
     fact = "no loop over the table"
     if not loop:
-        raise AnalysisError("to_kilometers: the loop over UNITS_CONVERSION_FACTORS was not found (table look-up in another form)")
+        # second recognised form: the factors of the matching rows are collected, the first one is used
+        comps = [(st, st.value) for st in walk_no_nested(f.node) if isinstance(st, ast.Assign) and isinstance(st.targets[0], ast.Name)
+                 and isinstance(st.value, ast.ListComp) and len(st.value.generators) == 1 and norm(st.value.generators[0].iter) == "UNITS_CONVERSION_FACTORS"]
+        sp_assign = [s_ for s_ in f.body if isinstance(s_, ast.Assign) and calls_in(s_.value, "split_units")]
+        if len(comps) != 1 or not sp_assign or not isinstance(sp_assign[0].targets[0], ast.Tuple):
+            raise AnalysisError("to_kilometers: the look-up in UNITS_CONVERSION_FACTORS was not found (neither loop nor filtered list)")
+        st_, c_ = comps[0]
+        g_ = c_.generators[0]
+        ln, un = [norm(e) for e in sp_assign[0].targets[0].elts]
+        if not (isinstance(g_.target, ast.Tuple) and len(g_.target.elts) == 2):
+            raise AnalysisError("to_kilometers: rows of the table are not unpacked into (spellings, factor)")
+        tu, tf = [norm(e) for e in g_.target.elts]
+        m_ = st_.targets[0].id
+        rets_ = [r_ for r_ in walk_no_nested(f.node) if isinstance(r_, ast.Return) and r_.value is not None and m_ in norm(r_.value)]
+        fact = "%s = %s; return %s" % (m_, norm(c_), [norm(r_.value) for r_ in rets_])
+        ok = norm(c_.elt) == tf and [norm(i_) for i_ in g_.ifs] == ["%s in %s" % (un, tu)] and len(rets_) == 1 \
+            and norm(rets_[0].value) in ("%s * %s[0]" % (ln, m_), "%s[0] * %s" % (m_, ln))
+        ctx.ob("to_kilometers.convert", ok, fact, "return length * factor for the row whose spellings contain the unit", node=st_, func=f)
     if loop:
         lp = loop[0]
         tu, tf = (lp.target.elts[0].id, lp.target.elts[1].id) if isinstance(lp.target, ast.Tuple) and len(lp.target.elts) == 2 else (None, None)
@@ -99,7 +116,8 @@ def rule_units(ctx):
                 ln, un = [norm(e) for e in sp_assign[0].targets[0].elts]
             fact = "for %s, %s in table: if %s: %s" % (tu, tf, norm(t), norm(ret[0]) if ret else None)
             ok = cond_ok and unit_name == un and bool(ret) and norm(ret[0].value) in ("%s * %s" % (ln, tf), "%s * %s" % (tf, ln))
-    ctx.ob("to_kilometers.convert", ok, fact, "return length * factor for the row whose spellings contain the unit", node=loop[0] if loop else f.node, func=f)
+    if loop:
+        ctx.ob("to_kilometers.convert", ok, fact, "return length * factor for the row whose spellings contain the unit", node=loop[0] if loop else f.node, func=f)
     first = f.body[0] if f.body else None
     okn = isinstance(first, ast.If) and "isinstance(%s, Number)" % p in norm(first.test) and len(first.body) == 1 \
         and isinstance(first.body[0], ast.Return) and norm(first.body[0].value) == p
